@@ -114,6 +114,12 @@ func runReal(rec *ab.Recorder, rng *rand.Rand, nreq, maxChunks int) {
 		if o >= g {
 			o++
 		}
+		if n > 2 {
+			// nothing serialises the requests here, so with three GPUs every owner gets one fixed
+			// requester: an owner serving two requesters at the same time is outside the property
+			// (pairs of GPUs; the driver copies one page at a time) - see design/C19.md, limits
+			o = g%n + 1
+		}
 		if nextDst[g] >= nfr {
 			continue
 		}
